@@ -518,8 +518,85 @@ def run_masked(case):
     return r
 
 
+# -- extra axes: leading time / trailing band, every chunking of that axis ---------------------------------------------
+def gen_axes(tier):
+    def g():
+        for layout in ("tyx", "yxb", "tyxb"):
+            for axchunks in ((1, 1, 1), (2, 1), (1, 2), (3,)):
+                for sc, dc in (((4, 4), (3, 4)), ((3, 4), (5, 7)), ((8, 8), (4, 4))):
+                    for dest in ("identical", "subpixel-shift", "scale2", "mirror-x", "outside-left", "rot-coarse", "disjoint-right"):
+                        for dtype, nds in (("int16", "both"), ("float32", "none")) + ((("uint8", "src0"), ("float64", "dst0")) if tier == "thorough" else ()):
+                            yield (layout, axchunks, sc, dc, dest, dtype, nds)
+
+    return g
+
+
+def run_axes(case):
+    layout, axchunks, schunk, dchunk, dest, dtype, nds = case
+    shape = (7, 10)
+    P, dshape = DESTS[dest]
+    dshape = dshape or shape
+    sg = GeoBox(shape, SRC_A, CRS_M)
+    dg = GeoBox(dshape, SRC_A * P, CRS_M)
+    src_nd, dst_nd = nodata_vals(dtype, nds)
+    base = src_data(shape, dtype, 0)
+    nt = 3 if layout.startswith("t") else 0
+    nb = 3 if layout.endswith("b") else 0
+    # plane (t, b) = base + 10*t + 2*b (planes all differ; values stay odd, below 250 and away from nodata)
+    def plane(t, b):
+        return (base.astype("int64") % 100 + 10 * t + 2 * b * 2).astype(dtype) | np.dtype(dtype).type(1) if np.dtype(dtype).kind in "iu" else (base % 100 + 10 * t + 4 * b).astype(dtype)
+    if layout == "tyx":
+        data = np.stack([plane(t, 0) for t in range(nt)])
+        ch = (axchunks, schunk[0], schunk[1])
+    elif layout == "yxb":
+        data = np.stack([plane(0, b) for b in range(nb)], axis=-1)
+        ch = (schunk[0], schunk[1], axchunks)
+    else:
+        data = np.stack([np.stack([plane(t, b) for b in range(nb)], axis=-1) for t in range(nt)])
+        ch = (axchunks, schunk[0], schunk[1], axchunks)
+    kw = dict(nodata=src_nd) if src_nd is not None else {}
+    tm = [f"2020-01-0{t + 1}" for t in range(nt)] if nt else None
+    xx = wrap_xr(data, sg, time=tm, **kw)
+    xd = wrap_xr(da.from_array(data, chunks=ch), sg, time=tm, **kw)
+    kw2 = {} if dst_nd is None else dict(dst_nodata=dst_nd)
+    whole = xr_reproject(xx, dg, resampling="nearest", **kw2).values
+    lazy = xr_reproject(xd, dg, resampling="nearest", chunks=tuple(dchunk), **kw2)
+    cls = f"{layout}:axis-chunks-{'-'.join(map(str, axchunks))}"
+    r = R(outcome=f"axes:{dest}:{cls}")
+    try:
+        chunked, _ = execute(lazy.data)
+    except BlockMismatch as e:
+        return r.fail(f"chunked:block-shape:{cls}", f"{case}: {e}")
+    except Exception as e:  # pylint: disable=broad-except
+        if not core.in_repo_tb(e) and "shape" not in str(e):
+            raise
+        return r.fail(f"chunked:raised:{type(e).__name__}:{cls}", f"{case}: {e}")
+    fill = expected_fill(dtype, src_nd, dst_nd)
+    ref = np.empty(whole.shape, dtype=dtype)
+    for t in range(max(nt, 1)):
+        for b in range(max(nb, 1)):
+            pl = brute_nearest(plane(t if nt else 0, b if nb else 0), P, dshape, fill)
+            if layout == "tyx":
+                ref[t] = pl
+            elif layout == "yxb":
+                ref[..., b] = pl
+            else:
+                ref[t, ..., b] = pl
+    covered = ~np.isnan(ref) if (isinstance(fill, np.floating) and np.isnan(fill)) else ref != fill
+    r.nontrivial = bool(covered.any())
+    if chunked.shape != whole.shape:
+        return r.fail(f"chunked:shape:{cls}", f"{case}: chunked result has shape {chunked.shape}, in-memory {whole.shape}")
+    if not same(chunked, whole):
+        r.fail(f"chunked!=whole:{_classify(chunked, whole, covered, fill)}:{cls}", f"{case}: chunked vs in-memory differ at {_diff(chunked, whole)}")
+    if not same(chunked, ref):
+        r.fail(f"chunked!=reference:{_classify(chunked, ref, covered, fill)}:{cls}", f"{case}: chunked vs brute-force reference differ at {_diff(chunked, ref)}")
+    return r
+
+
 def slices(tier):
     return [
+        e1.Slice("extra-axes", gen_axes(tier), run_axes,
+                 "leading time / trailing band / both, every chunking of a 3-long extra axis x spatial chunkings x destinations"),
         e1.Slice("masked-source", gen_masked(tier), run_masked,
                  "sources holding nodata pixels (isolated / a whole chunk / half / all / one plane) x nodata settings x chunkings x destinations"),
         e1.Slice("joint", gen_joint(tier), run_joint, "pairs of reprojections differing in one parameter, computed in one graph"),
